@@ -340,6 +340,12 @@ pub fn draw<T: Debug>(strat: &BoxedStrategy<T>, seed: u64) -> T {
     strat.new_tree(&mut runner).expect("strategy draws").current()
 }
 
+/// u64 values with their boundaries (0, 1, MAX, small) next to arbitrary ones.
+pub fn u64_edges() -> BoxedStrategy<u64> {
+    use proptest::prelude::*;
+    prop_oneof![2 => Just(0u64), 1 => Just(1u64), 1 => Just(u64::MAX), 2 => 0u64..8, 4 => any::<u64>()].boxed()
+}
+
 pub fn args_strategy(conc: &[svmodel::Ty]) -> BoxedStrategy<Vec<Value>> {
     let v: Vec<BoxedStrategy<Value>> = conc.iter().map(svmodel::json::value_strategy).collect();
     v.boxed()
